@@ -29,6 +29,9 @@ func init() {
 // canonical identity producers
 var canonIdent = named(HG+".BlockSignature.ValidatorHex", PEER+".Peer.PubKeyString", COMM+".EncodeToString", "strings.ToUpper", PEER+".Peer.ID", KEYS+".PublicKeyID", KEYS+".PublicKeyHex")
 
+// identity producers that carry the whole public key
+var fullKeyIdent = named(HG+".BlockSignature.ValidatorHex", PEER+".Peer.PubKeyString", COMM+".EncodeToString", "strings.ToUpper", KEYS+".PublicKeyHex")
+
 func c12accept(p *Prog, r *Report) {
 	const rule = "C12.accept"
 	r.Rule(rule, 3, "core.fastForward: hg.Reset / setPeers / setHeadAndSeq / stores to core fields are reached only after CheckBlock(block, set)==nil and frame.Hash()==block.FrameHash(); the set hashed against block.PeersHash() derives from frame.Peers")
@@ -192,7 +195,9 @@ func c12check(p *Prog, r *Report) {
 					return false
 				}
 				fv, base := fieldOf(lk.X)
-				return fv != nil && (fv.Name() == "ByPubKey" || fv.Name() == "ByID") && depOnParamType(base, "PeerSet")
+				// membership must be decided on the full public key that the signature is then
+				// verified against (a 32-bit peer ID can be collided by a stranger's key)
+				return fv != nil && fv.Name() == "ByPubKey" && depOnParamType(base, "PeerSet") && depOnCall(lk.Index, fullKeyIdent)
 			}, 1)
 			qVerify := p.lift(func(l Lit) bool {
 				return resultLit(l, named(HG+".Block.Verify"), 0, true, block)
@@ -204,7 +209,7 @@ func c12check(p *Prog, r *Report) {
 				ok1 = true // iterating the trusted set: members by construction
 			}
 			ok2, _ := p.allPaths(inc, []Pred{qVerify}, all(1))
-			r.Check(ok1, rule, "CheckBlock:count++:member", p.ipos(inc), fnName(fn), "increment only for members of peerSet", "counter incremented without a membership test in peerSet.ByPubKey")
+			r.Check(ok1, rule, "CheckBlock:count++:member", p.ipos(inc), fnName(fn), "increment only for members of peerSet (by full public key)", "counter incremented without a membership test of the signer's full public key in peerSet.ByPubKey (a lookup by 32-bit ID admits colliding strangers whose signature is then verified against their own key)")
 			r.Check(ok2, rule, "CheckBlock:count++:Block.Verify==true", p.ipos(inc), fnName(fn), "increment only if block.Verify(sig) is true", "counter incremented without block.Verify(sig)==true")
 			// distinctness
 			okD := overTrusted
@@ -275,7 +280,7 @@ func c12mapCounter(p *Prog, r *Report, fn *ssa.Function, mk *ssa.MakeMap, block,
 					return false
 				}
 				fv, base := fieldOf(lk.X)
-				return fv != nil && (fv.Name() == "ByPubKey" || fv.Name() == "ByID") && depOnParamType(base, "PeerSet")
+				return fv != nil && fv.Name() == "ByPubKey" && depOnParamType(base, "PeerSet") && depOnCall(lk.Index, fullKeyIdent)
 			}, 1)
 			qVerify := p.lift(func(l Lit) bool { return resultLit(l, named(HG+".Block.Verify"), 0, true, block) }, 1)
 			ok1, _ := p.allPaths(mu, []Pred{qMember}, all(1))
